@@ -34,7 +34,7 @@ var interopKeys = map[string]struct{ fixture, id, kid string }{
 var interopSpace = engine.Space{
 	engine.D("helper", "signed-assertion", "generate", "filedata"),
 	engine.D("key", "ec-pkcs8", "rsa-pkcs8", "rsa-pkcs1", "ec-sec1", "ed25519", "ec-p384", "svc-rsa", "B-ec-pkcs8"),
-	engine.D("use", "direct", "direct-keyset", "code", "refresh", "introspect", "revoke", "device", "bearer"),
+	engine.D("use", "direct", "direct-keyset", "code", "refresh", "introspect", "revoke", "device", "bearer", "devtoken"),
 	engine.D("router", "provider", "legacy"),
 	engine.D("aud", "[I]", "[x,I]"),
 	engine.D("age", "0s", "30m", "59m50s", "1h0m10s"),
